@@ -27,7 +27,7 @@ static PANICKED: AtomicBool = AtomicBool::new(false);
 /// makes every connection hang cannot stall a whole check for hours
 static HUNG_STREAK: AtomicUsize = AtomicUsize::new(0);
 
-fn watchdog() -> Duration {
+pub(crate) fn watchdog() -> Duration {
     if HUNG_STREAK.load(Ordering::SeqCst) >= 3 {
         Duration::from_millis(300)
     } else {
@@ -253,13 +253,13 @@ fn typed_call(ctx: &mut ClientContext, req: &Request<'static>, shared: &Arc<Mute
 // server scenarios (real listener, injected scripted transport, current-thread runtime)
 // ---------------------------------------------------------------------------------------------
 #[derive(Clone, Debug)]
-enum SvcReply {
+pub(crate) enum SvcReply {
     Reply(Response),
     Decline,
     Exc(ExceptionCode),
 }
 
-fn parse_svc(s: &str) -> Option<Vec<SvcReply>> {
+pub(crate) fn parse_svc(s: &str) -> Option<Vec<SvcReply>> {
     if s == "-" {
         return Some(vec![]);
     }
@@ -615,6 +615,8 @@ fn run_line(ctx: &mut SrvCtx, line: &str, errno: Option<i32>) -> String {
         "SYNC" => live::run_live(true, &t[1..]),
         "ASYNC" => live::run_live(false, &t[1..]),
         "CONC" => live::run_conc(&t[1..]),
+        "SERSRV" => live::run_sersrv(&t[1..]),
+        "SERE2E" => live::run_sere2e(&t[1..]),
         _ => "ERR cmd".into(),
     }
 }
